@@ -69,6 +69,11 @@ class LogixController(Module):
         self.exec_log = []          # executed tag services: dicts (for C02/C04 oracles)
         self._last_frag_empty = False
 
+    def reindex(self):
+        """the project's symbol instance ids changed (a download): rebuild the instance index"""
+        self.by_instance = {t["instance_id"]: t for t in self.project["tags"] if t.get("scope") is None}
+        self.types_by_id = {t["template_id"]: t for t in self.types.values()}
+
     # ---- sizes ----------------------------------------------------------
     def elem_size(self, tname):
         if tname in ATOMIC_BY_NAME:
